@@ -574,7 +574,12 @@ class Explorer:
             try:
                 self.verify_path(P, c, info, case, res)
             except PathInfeasible:
-                continue
+                # a path that dies at a concretely false assumption (e.g. a callee precondition that is
+                # `False` outright) keeps the obligations it has emitted so far: the failed precondition
+                # must be reported, not vanish with the path
+                if not P.obligations:
+                    continue
+                res.outcome = 'infeasible-after-obligation'
             except Unsupported as e:
                 unsupported.append(str(e))
                 continue
